@@ -807,7 +807,11 @@ def run_bin(case):
     elif ncomp > 1 and stat == 'sum':
         lines.append('C18 bint %d %s %d %s' % (s, cd, ncomp, rat_list(arr.ravel())))
         cmps.append(('bint', [float(x) for x in out.ravel()], {}))
-    else:
+    if ncomp > 1 and not weighted:
+        # the reshape the code performs: tensor axes in front of the (n, s) pairs, one reduction (`binTensorL`)
+        lines.append('C18 bintl %s %s %s %s %s' % (stat, '[' + ','.join([str(s)] * nd) + ']', cd, '[' + ','.join(str(t) for t in tshape) + ']', rat_list(arr.ravel())))
+        cmps.append(('bintl', [float(x) for x in out.ravel()], {}))
+    if not weighted and not (ncomp > 1 and stat == 'sum'):
         for k in range(ncomp):
             lines.append('C18 bin %s %d %s %s' % (stat, s, cd, rat_list(comps_in[k])))
             cmps.append(('bin', [float(x) for x in comps_out[k]], {}))
@@ -1351,6 +1355,8 @@ def check_case(ctx, case, all_lines, index):
         ctx.count('bin:dirs:' + (''.join('d' if d < 0 else 'u' for d in case['delta']) if case['regular'] else dirs_of(case['axes'])))
         ctx.count('bin:stat:' + case['stat'])
         ctx.count('bin:tensor_shape:%s' % (case['tshape'],))
+        if info.get('ncomp', 1) > 1 and not info.get('weighted'):
+            ctx.count('bintl:' + case['stat'])
         ctx.count('binpix:images', info.get('binpix', 0))
         ctx.count('bin:' + ('regular' if case['regular'] else 'separated-weighted' if case['stat'] == 'mean' else 'separated'))
         sig = (fam, tuple(case['dims']), case['s'], tuple(case['tshape']), case['stat'], case['regular'])
